@@ -180,9 +180,9 @@ def crf_listener_jobs(model, tier, config='le'):
           '            e0->mclk_entries.stqe_next = e1; mclk_timestamps.stqh_last = &e1->mclk_entries.stqe_next; } }\n')
     jobs = []
 
-    def mk(name, enforce, replace, call, bounded=None, unwind=None, loops=None, timeout=1800, extra=(), cbmc=(), sa=''):
+    def mk(name, enforce, replace, call, bounded=None, unwind=None, loops=None, timeout=1800, extra=(), cbmc=(), sa='', fallback=None, no_ua=False, name_suffix=''):
         src = pre + sa + 'void harness(void)\n{\n' + hv + qs + '    ' + call + '\n    VP_CANARY();\n}\n'
-        return Job('examples/crf-listener/' + name, src, LIBSRC, enforce=enforce, replace=replace, owners=own, clause_map=_tags(src),
+        return Job('examples/crf-listener/' + name + name_suffix, src, LIBSRC, enforce=enforce, fallback=fallback, no_unwinding_assertions=no_ua, replace=replace, owners=own, clause_map=_tags(src),
                    function='crf-listener.c:' + enforce.split('/')[0], kind='example', config=config, includes=inc, timeout=timeout,
                    obj_bits=10, unwind=unwind, bounded=bounded, loop_contracts=loops, assumptions=CRF_ASSUME + list(extra), extra_cbmc=list(cbmc))
 
@@ -193,8 +193,22 @@ def crf_listener_jobs(model, tier, config='le'):
     jobs.append(mk('aaf_talker_recv_pdu', 'aaf_talker_recv_pdu',
                    ['recv', 'recover_mclk', 'timerfd_settime', 'mclk_dequeue_ts/vp_use_mclk_dequeue_ts'] + legacy_fns,
                    'aaf_talker_recv_pdu(nondet_int(), nondet_int());'))
+    # fallbacks for the two loop obligations when their loop contract cannot be attached (renamed counter, restructured loop):
+    # recover_mclk - the constant loop is unwound completely (162) under an unwinding assertion;
+    # mclk_lookup - a loop contract that names no local (invariant true, frame = all locals): memory safety only, the bound on the
+    #               search (termination) is NOT checked in the fallback
+    fb_recover = mk('recover_mclk', 'recover_mclk', ['mclk_enqueue_ts/vp_inloop_mclk_enqueue_ts'],
+                    'struct avtp_crf_pdu *p = malloc(sizeof(struct avtp_crf_pdu) + 8); __CPROVER_assume(p != NULL); recover_mclk(p);',
+                    unwind={'*repo*': 162}, timeout=1800, name_suffix='~unwinding-fallback',
+                    bounded='FALLBACK (loop contract not attachable): the constant loop over MCLKLIST_TS_PER_CRF is unwound 162 times under an unwinding assertion')
+    fb_lookup = mk('mclk_lookup', 'mclk_lookup', ['get_next_mclk_timestamp/vp_inloop_get_next_mclk_timestamp'], 'mclk_lookup(nondet_u32());',
+                   loops={'mclk_lookup': [{'template': 'INV: 1 == 1\nASG: prev_mclk_timestamp, need_mclk_lookup\n',
+                                           'symbols': ['::prev_mclk_timestamp', '::need_mclk_lookup'], 'all_locals': True, 'loop_rank': 0}]},
+                   name_suffix='~name-free-fallback',
+                   bounded='FALLBACK (loop contract not attachable): loop contract with invariant true and no variant - memory safety of the search loop only, '
+                           'its termination bound is not checked')
     jobs.append(mk('recover_mclk', 'recover_mclk', ['mclk_enqueue_ts/vp_inloop_mclk_enqueue_ts'],
-                   'struct avtp_crf_pdu *p = malloc(sizeof(struct avtp_crf_pdu) + 8); __CPROVER_assume(p != NULL); recover_mclk(p);',
+                   'struct avtp_crf_pdu *p = malloc(sizeof(struct avtp_crf_pdu) + 8); __CPROVER_assume(p != NULL); recover_mclk(p);', fallback=fb_recover,
                    loops={'recover_mclk': [{'template': RECOVER_LOOP, 'symbols': RECOVER_SYMS}]},
                    sa='/* the constant the loop contract was written against */\n_Static_assert(MCLKLIST_TS_PER_CRF == 160, "CRF listener constant");\n'))
     jobs.append(mk('mclk_enqueue_ts', 'mclk_enqueue_ts', ['malloc'], 'mclk_enqueue_ts(nondet_u64());'))
@@ -203,7 +217,7 @@ def crf_listener_jobs(model, tier, config='le'):
                    bounded='BOUNDED: mclk_dequeue_ts is enforced on concrete queues of depth 1 and 2 built by the harness (the link structure behind the head '
                            'cannot be stated without recursion); no loop is involved'))
     jobs.append(mk('get_next_mclk_timestamp', 'get_next_mclk_timestamp', ['mclk_dequeue_ts/vp_use_mclk_dequeue_ts'], 'get_next_mclk_timestamp();'))
-    jobs.append(mk('mclk_lookup', 'mclk_lookup', ['get_next_mclk_timestamp/vp_inloop_get_next_mclk_timestamp'], 'mclk_lookup(nondet_u32());',
+    jobs.append(mk('mclk_lookup', 'mclk_lookup', ['get_next_mclk_timestamp/vp_inloop_get_next_mclk_timestamp'], 'mclk_lookup(nondet_u32());', fallback=fb_lookup,
                    loops={'mclk_lookup': [{'template': LOOKUP_LOOP, 'symbols': LOOKUP_SYMS}]},
                    sa='/* the constant the loop contract was written against */\n_Static_assert(MCLK_LOOKUP_MAX_TRIES == 8000, "CRF listener constant");\n'))
     return jobs
